@@ -17,7 +17,7 @@ from ..astutil import dotted, norm, walk_local
 from ..callgraph import CallGraph, effects_of
 from ..core import Ctx, PropSpec, Unsupported
 from ..extract import where
-from ..interp import ExcVal, Obj, Raised
+from ..interp import ExcVal, Obj, Raised, StepLimit
 from ..models import make_interp, model_definition, raw_packet
 
 DEF = "xtce/definitions.py"
@@ -222,7 +222,12 @@ def run_stream(prog, fi, stream, opts):
         kind = stream[i]
         packet["IDX"] = i if len(packet) == 0 else ("stale", i, sorted(map(str, packet)))   # must arrive empty (fresh per packet)
         if kind == "unrec":
-            raise Raised(ExcVal("UnrecognizedPacketTypeError", ("unrecognized",), {"partial_data": packet}))
+            try:    # built by the library's own exception class (interpreted), as parse_ccsds_packet would
+                from ..interp import ClassRef
+                exc = it._construct(ClassRef("UnrecognizedPacketTypeError"), ["unrecognized"], {"partial_data": packet}, None)
+            except (Unsupported, Raised):
+                exc = ExcVal("UnrecognizedPacketTypeError", ("unrecognized",), {"partial_data": packet})
+            raise Raised(exc)
         raw.attrs["pos"] = 8 * len(raw) + {"ok": 0, "short": -3, "long": 8}[kind]
         return packet
 
@@ -233,8 +238,11 @@ def run_stream(prog, fi, stream, opts):
     out = []
     for y in ys:
         if isinstance(y, ExcVal):
-            pd = y.kwargs.get("partial_data")
-            out.append(("err", pd.get("IDX") if pd is not None else None))
+            pd = y.kwargs.get("partial_data") if "partial_data" in y.kwargs else (y.attrs or {}).get("partial_data")
+            # the report carries the packet object the parser was filling (items AND its raw bytes), not a bare dict of its items
+            is_packet = getattr(pd, "cls", None) == "CCSDSPacket" and "raw_data" in getattr(pd, "attrs", {})
+            out.append(("err", pd.get("IDX") if pd is not None else None) if is_packet or pd is None else
+                       ("err-without-packet", type(pd).__name__))
         elif isinstance(y, dict):
             out.append(("pkt", y.get("IDX")))
         elif isinstance(y, bytes):
@@ -298,8 +306,52 @@ def reparse_rule(ctx: Ctx, RULE: str = "R11.7"):
         ctx.unknown(RULE, site, str(e))
 
 
+def stream_vs_single(ctx: Ctx):
+    """R11.e: the all-features stream (twice in a row, so every kind of packet has a predecessor of its own kind) decoded as one
+    stream by one definition gives, item by item, what decoding each packet alone with a freshly loaded definition gives."""
+    from . import xmlcommon as X
+    from .c01 import kitchen_packets, _show
+    from .c16 import clone_tree
+    prog = ctx.prog
+    site = f"{GEN}::all-features stream twice vs each packet alone"
+
+    def view(y):
+        if isinstance(y, ExcVal):
+            return ("error", y.tname)
+        return [(n, _show(v), _show(v.attrs.get("raw_value"))) for n, v in y.items()]
+    try:
+        h = X.harness(prog)
+        g1 = X.write_tree(h, X.build_kitchen_sink(h))
+        d = X.load(h, clone_tree(g1), "xtce")
+        pk = [p[1] for p in kitchen_packets()]
+        stream = b"".join(pk + pk)
+        k, got = h.outcome("d.packet_generator(src, yield_unrecognized_packet_errors=True)", DEF, d=d, src=stream)
+        if k != "ok":
+            ctx.refuted("R11.e", site, f"decoding the doubled stream ends in {got}")
+            return
+        whole = [view(y) for y in got]
+        alone = []
+        for b in pk:
+            h2 = X.harness(prog)
+            d2 = X.load(h2, clone_tree(g1), "xtce")
+            k2, g2 = h2.outcome("d.packet_generator(src, yield_unrecognized_packet_errors=True)", DEF, d=d2, src=b)
+            alone.append([view(y) for y in g2] if k2 == "ok" else [("ends in", g2)])
+        want = [v for a in alone + alone for v in a]
+        bad = None
+        if whole != want:
+            i = next((j for j, (a, b2) in enumerate(zip(whole, want)) if a != b2), min(len(whole), len(want)))
+            bad = (f"item {i} of the doubled stream is {whole[i] if i < len(whole) else '<missing>'}; the same packet decoded alone by a "
+                   f"fresh definition gives {want[i] if i < len(want) else '<nothing>'}")
+        ctx.decide(bad is None, "R11.e", site, f"{len(want)} items agree", bad or "")
+    except (Unsupported, StepLimit) as e:
+        ctx.unknown("R11.e", site, str(e))
+    except Raised as r:
+        ctx.refuted("R11.e", site, f"the all-features document cannot be written / loaded: {r.exc.tname} {r.exc.args}")
+
+
 def check(ctx: Ctx) -> None:
     prog = ctx.prog
+    ctx.guard("R11.e", GEN, stream_vs_single, ctx)
     ctx.guard("R11.7", "packets.py::CCSDSPacket", reparse_rule, ctx)
     cg = CallGraph(prog)
     cl = effect_rule(ctx, cg, [PARSE], "R11.1", "decoding")
@@ -368,7 +420,7 @@ SPEC = PropSpec(
     pid="C11",
     title="Packets are parsed independently; generators and definitions do not interfere",
     check=check,
-    floors={"R11.1": 25, "R11.2": 2, "R11.3": 2, "R11.4": 8, "R11.6": 2, "R11.7": 1},
+    floors={"R11.1": 25, "R11.2": 2, "R11.3": 2, "R11.4": 8, "R11.6": 2, "R11.7": 1, "R11.e": 1},
     fallback={"R11.3": ("R11.4",)},
     explanation=("Effect analysis over the resolved call graph: every function reachable from parse_ccsds_packet "
                  "(R11.1) and from packet_generator / ccsds_generator (R11.2) is scanned for attribute stores, "
